@@ -11,6 +11,30 @@ CHECKS = {
   design_ref="DESIGN.md §6 C17",
   note="Trusts TLC and the transcription of ISO 7816-4 §5.1 in Apdu.tla; data bytes are symbolic in the model (random on the Go side).",
   technique="TLA+ spec (Apdu.tla) model-checked with TLC; TLC-emitted table replayed into CApdu.Encode; recorded lines validated against Trace_Apdu"),
+ "C16": dict(
+  category="model_checking",
+  text="Tlv.tla transcribes X.690 8.1 (identifier, length forms, end-of-contents only inside indefinite contents, exact filling of definite contents) with the library's limits; TLC checks decode(encode(t))=t, idempotence, canonical fixed points and Unwrap/Decode agreement on EVERY byte string up to length 4 (quick) / 5 (thorough) over a 14-octet alphabet containing every behaviour-changing octet, and prints the specified outcome of each string; every row is replayed into the real tlv.Decode/Encode/DecodeEncode/NodeByTagOccur/Unwrap. Grammar-generated and mutated inputs up to several hundred bytes plus inputs at the depth/count limits are recorded from the real decoder and validated against Trace_Tlv.",
+  design_ref="DESIGN.md §6 C16",
+  note="Exhaustive only for short strings over the reduced alphabet; identifier octet 00 outside end-of-contents is a grey zone (no verdict). Trusts TLC and my reading of X.690.",
+  technique="TLA+ spec (Tlv.tla) model-checked with TLC; table replay into tlv.Decode; recorded decodes validated against Trace_Tlv"),
+ "C18": dict(
+  category="model_checking",
+  text="Mrz.tla states the 7-3-1 check digit, the TD1/TD2/TD3 field positions, the extended-document-number rule and the MRZ-information construction; TLC generates valid zones of all three layouts and applies every single-character substitution over a reduced alphabet, every adjacent transposition, deletions and insertions (5k zones quick, 217k thorough), checks consistency of must-reject / well-formed and agreement of the key-seed routes on the specification, and prints the outcome of each zone, which is replayed into mrz.MrzDecode and the three password routes. Full-alphabet random zones and arbitrary strings are recorded from the real code and validated against Trace_Mrz.",
+  design_ref="DESIGN.md §6 C18",
+  note="Zones that are neither must-reject nor well-formed (digits in names, unset dates with '<' check digit, characters outside the alphabet) get no verdict.",
+  technique="TLA+ spec (Mrz.tla) model-checked with TLC; mutant table replayed into mrz.MrzDecode / password routes; recorded calls validated against Trace_Mrz"),
+ "C02": dict(
+  category="model_checking",
+  text="Verdict.tla states the gates of the property as predicates on any verdict function and the as-built mapping of document/session.go; TLC enumerates all 432 outcome vectors (PA absent/error/failed/ok x CardSecurity authenticated x AA/PACE-CAM/CA absent/failed/ok x completeness) and checks the gates; each vector is concretised into real document.Session values in 16 (quick) / 256 (thorough) representations and Summary(), VerifiedChipAuthStatus(), ChipAuthProtocolStatus() are checked against the gates. (The end-to-end half with hostile chips is added by the session checks.)",
+  design_ref="DESIGN.md §6 C02",
+  note="The product half is exhaustive over the abstract vectors; representations per vector are sampled in quick.",
+  technique="TLA+ spec (Verdict.tla) exhaustively enumerated with TLC; every vector replayed into document.Session/DocumentEx.Summary"),
+ "C13": dict(
+  category="model_checking",
+  text="ReadFile.tla models SELECT, the 4-byte header read, the length computation, the read loop with Le = min(maxLe, remaining), the first-block fall-back ladder and the chunk limit, with the chip as a separate process choosing response sizes, caps, Le rejections and short-EF-identifier semantics for P1 bit 8; TLC checks Exact / NotFound / Bounded over the product of file shapes, read sizes and chip behaviours (6M states quick) and termination under fairness; the as-built switch (offsets >= 32768 in P1) must yield the counterexample the known finding names. The real NfcSession.ReadFile is run against the independent chip simulator over the same grid plus seeded random shapes, plain and under 3DES/AES secure messaging; returned bytes are compared with the stored object and every recorded SELECT / READ BINARY / outcome sequence is validated against Trace_ReadFile.",
+  design_ref="DESIGN.md §6 C13",
+  note="Chip behaviours are those of harness/chipsim (ISO 7816-4 READ BINARY semantics); an error outcome is never a C13 violation.",
+  technique="TLA+ spec (ReadFile.tla) model-checked with TLC; traces of the real ReadFile against a chip simulator validated against Trace_ReadFile; direct byte comparison"),
 }
 PENDING = {}
 
